@@ -22,3 +22,26 @@ package toy
 //@ func Check(r *Rev, sums []string) (err error)
 //@   requires r != nil && r.Applied <= len(r.Hashes)
 //@   loop 1 invariant 0 <= i
+
+//@ rec cnt
+//@ spec func cnt(xs []int, n int) int {
+//@ spec 	if n <= 0 {
+//@ spec 		return 0
+//@ spec 	}
+//@ spec 	if xs[n-1] > 0 {
+//@ spec 		return cnt(xs, n-1) + 1
+//@ spec 	}
+//@ spec 	return cnt(xs, n-1)
+//@ spec }
+
+//@ func CountPos(xs []int) (r int)
+//@   ensures r == cnt(xs, len(xs))
+//@   loop 1 invariant 0 <= loopk && loopk <= len(xs) && n == cnt(xs, loopk)
+
+//@ func FilterPos(xs []int) (r []int)
+//@   ensures len(r) == old(cnt(xs, len(xs)))
+//@   ensures (forall i int :: 0 <= i && i < len(xs) && old(xs[i] > 0) ==> r[old(cnt(xs, i))] == old[int](xs[i]))
+//@   loop 1 localwrites
+//@   loop 1 invariant 0 <= loopk && loopk <= len(xs) && len(out) == old(cnt(xs, loopk)) && GvcFresh(out)
+//@   loop 1 invariant (forall i int :: 0 <= i && i < loopk && old(xs[i] > 0) ==> 0 <= old(cnt(xs, i)) && old(cnt(xs, i)) < len(out))
+//@   loop 1 invariant (forall i int :: 0 <= i && i < loopk && old(xs[i] > 0) ==> out[old(cnt(xs, i))] == old[int](xs[i]))
